@@ -785,7 +785,7 @@ def classify(case, obs):
         else:
             yield "encode-raised:" + obs["enc"][1]
     elif case["kind"] == "raw":
-        yield "raw:" + case.get("how", "?")
+        yield "raw:" + case.get("how", "?").split(":")[0].split("=")[0]
         yield "raw-outcome:" + (obs["dec"][1] if obs["dec"][0] == "raise" else "ok")
     else:
         yield "cap-delta=%d" % case["delta"]
